@@ -433,3 +433,162 @@ func (L *Locks) Holds(i ssa.Instruction, obj types.Object, mode LockMode) bool {
 	}
 	return ls[obj] >= mode
 }
+
+// LockEdge: To is acquired (possibly in a callee) while From is held.
+type LockEdge struct {
+	From, To types.Object
+	Fn       *ssa.Function
+	Instr    ssa.Instruction
+}
+
+// Order computes the lock-order graph over the analysed functions and returns
+// its edges and the strongly connected components with more than one mutex
+// (or a self edge), i.e. potential deadlock cycles.
+func (L *Locks) Order() ([]LockEdge, [][]types.Object) {
+	p := L.p
+	// acq[f]: mutexes f may acquire, directly or through callees in the analysed packages
+	acq := map[*ssa.Function]map[types.Object]bool{}
+	callees := map[*ssa.Function][]*ssa.Function{}
+	for _, f := range p.SrcFuncs {
+		acq[f] = map[types.Object]bool{}
+		EachInstr(f, func(i ssa.Instruction) {
+			if obj, isAcq, _, ok := lockOp(i); ok && isAcq {
+				acq[f][obj] = true
+			}
+			if c, ok := i.(*ssa.Call); ok {
+				for _, t := range p.Callees(c) {
+					if L.funcs[t] {
+						callees[f] = append(callees[f], t)
+					}
+				}
+				for _, a := range c.Call.Args {
+					if mc, ok := a.(*ssa.MakeClosure); ok {
+						callees[f] = append(callees[f], mc.Fn.(*ssa.Function))
+					}
+				}
+			}
+			if d, ok := i.(*ssa.Defer); ok {
+				for _, t := range p.Callees(d) {
+					if L.funcs[t] {
+						callees[f] = append(callees[f], t)
+					}
+				}
+			}
+		})
+	}
+	for changed := true; changed; {
+		changed = false
+		for _, f := range p.SrcFuncs {
+			for _, g := range callees[f] {
+				for o := range acq[g] {
+					if !acq[f][o] {
+						acq[f][o] = true
+						changed = true
+					}
+				}
+			}
+		}
+	}
+	var edges []LockEdge
+	seen := map[[2]types.Object]bool{}
+	addEdge := func(from, to types.Object, f *ssa.Function, i ssa.Instruction) {
+		k := [2]types.Object{from, to}
+		if seen[k] {
+			return
+		}
+		seen[k] = true
+		edges = append(edges, LockEdge{from, to, f, i})
+	}
+	for _, f := range p.SrcFuncs {
+		EachInstr(f, func(i ssa.Instruction) {
+			held := L.atInstr(i)
+			if len(held) == 0 {
+				return
+			}
+			if obj, isAcq, _, ok := lockOp(i); ok && isAcq {
+				for h := range held {
+					if h != obj {
+						addEdge(h, obj, f, i)
+					}
+				}
+				return
+			}
+			c, ok := i.(*ssa.Call)
+			if !ok {
+				return
+			}
+			for _, t := range p.Callees(c) {
+				if !L.funcs[t] {
+					continue
+				}
+				for o := range acq[t] {
+					for h := range held {
+						if h != o {
+							addEdge(h, o, f, i)
+						}
+					}
+				}
+			}
+		})
+	}
+	// SCCs (Tarjan) over mutex objects
+	adj := map[types.Object][]types.Object{}
+	nodes := map[types.Object]bool{}
+	for _, e := range edges {
+		adj[e.From] = append(adj[e.From], e.To)
+		nodes[e.From], nodes[e.To] = true, true
+	}
+	index := map[types.Object]int{}
+	low := map[types.Object]int{}
+	on := map[types.Object]bool{}
+	var stack []types.Object
+	var sccs [][]types.Object
+	n := 0
+	var strong func(v types.Object)
+	strong = func(v types.Object) {
+		index[v], low[v] = n, n
+		n++
+		stack = append(stack, v)
+		on[v] = true
+		for _, w := range adj[v] {
+			if _, ok := index[w]; !ok {
+				strong(w)
+				if low[w] < low[v] {
+					low[v] = low[w]
+				}
+			} else if on[w] && index[w] < low[v] {
+				low[v] = index[w]
+			}
+		}
+		if low[v] == index[v] {
+			var comp []types.Object
+			for {
+				w := stack[len(stack)-1]
+				stack = stack[:len(stack)-1]
+				on[w] = false
+				comp = append(comp, w)
+				if w == v {
+					break
+				}
+			}
+			if len(comp) > 1 {
+				sccs = append(sccs, comp)
+			}
+		}
+	}
+	var ns []types.Object
+	for v := range nodes {
+		ns = append(ns, v)
+	}
+	sort.Slice(ns, func(i, j int) bool { return LockName(ns[i]) < LockName(ns[j]) })
+	for _, v := range ns {
+		if _, ok := index[v]; !ok {
+			strong(v)
+		}
+	}
+	sort.Slice(edges, func(i, j int) bool {
+		a, b := LockName(edges[i].From)+">"+LockName(edges[i].To), LockName(edges[j].From)+">"+LockName(edges[j].To)
+		return a < b
+	})
+	return edges, sccs
+}
